@@ -689,6 +689,8 @@ def dataset_spec(draw, convs=ALL_CONVS, max_vars=3, min_vars=1, max_extra=2,
     spec["mode"] = draw(st.sampled_from(list(modes)))
     spec["bind"] = draw(st.sampled_from(["auto", "auto", "explicit"]))
     spec["warmup"] = draw(st.lists(st.sampled_from(WARMUP_PROPERTIES), max_size=4, unique=True))
+    if conv in ("cf1d", "cf2d") and spec["bind"] == "explicit" and draw(st.booleans()):
+        spec["decoy_latlon"] = True
     return spec
 
 
